@@ -264,7 +264,62 @@ func Extract() *fx.Group {
 	g.Nat("xattrAssigns", int64(assigns))
 	g.Bool("xattrKeepEmpty", assigns > 0 && guarded < assigns)
 	deepFacts(g, ef)
+	specFacts(g, ef)
 	return g
+}
+
+// specFacts: pins for the SPEC reader (Model/Ext4/SpecGeom.lean, ImageSpec.lean).
+//
+//	readChecks                 the conditions under which ext4.Read refuses a decoded superblock as invalid, in source
+//	                           order (Spec.readAccepts is their mirror; the addressing theorems assume them)
+//	dirEntryInfoModeFromType   does DirEntry.Info() build its mode from the directory entry's type alone (as found:
+//	                           permission bits are missing), or from the inode?
+func specFacts(g *fx.Group, ef *ast.File) {
+	rd := fx.FindFunc(ef, "", "Read")
+	var checks []string
+	if rd == nil {
+		g.Missing("ext4.Read")
+	} else {
+		ast.Inspect(rd.Body, func(n ast.Node) bool {
+			is, ok := n.(*ast.IfStmt)
+			if !ok {
+				return true
+			}
+			body := fx.Src(is.Body)
+			if strings.Contains(body, "invalid superblock") || strings.Contains(body, "Group Descriptor Table size is zero") {
+				checks = append(checks, strings.Join(strings.Fields(fx.Src(is.Cond)), " "))
+			}
+			return true
+		})
+	}
+	g.Strs("readChecks", checks)
+	df := fx.Parse("filesystem/ext4/directoryentry.go")
+	info := fx.FindFunc(df, "directoryEntryInfo", "Info")
+	fromType := false
+	if info == nil {
+		g.Missing("directoryEntryInfo.Info")
+	} else {
+		// the value of the `mode:` field of the returned FileInfo, resolved through one local variable
+		var modeExpr ast.Expr
+		ast.Inspect(info.Body, func(n ast.Node) bool {
+			if kv, ok := n.(*ast.KeyValueExpr); ok && fx.Src(kv.Key) == "mode" {
+				modeExpr = kv.Value
+			}
+			return true
+		})
+		if id, ok := modeExpr.(*ast.Ident); ok {
+			if rhs := fx.AssignRHS(info, id.Name); rhs != nil {
+				modeExpr = rhs
+			}
+		}
+		if modeExpr == nil {
+			g.Missing("directoryEntryInfo.Info mode")
+		} else {
+			src := fx.Src(modeExpr)
+			fromType = strings.Contains(src, "Type()") && !strings.Contains(src, "permissionsToMode")
+		}
+	}
+	g.Bool("dirEntryInfoModeFromType", fromType)
 }
 
 // deepFacts: pins for the mirrors of File.Read (file.go), groupDescriptorFromBytes and readInodeRaw.
